@@ -1,3 +1,4 @@
+import BridgeVerif.Model.Json
 /-!
 # MiniPy — a small, total, executable semantics for the Python subset the pure core of bridge_env is written in
 
@@ -87,6 +88,46 @@ def beqD : List (Val × Val) → List (Val × Val) → Bool
   | _, _ => false
 end
 
+mutual
+/-- a Python value as `json.dumps` sees it (`None` for values the encoder refuses / the library never passes) -/
+def valToJson : Val → Option Json
+  | .int n => some (.int n)
+  | .bool b => some (.bool b)
+  | .none => some .null
+  | .str s => some (.str s)
+  | .tuple xs => (valsToJson xs).map .arr
+  | .dict kvs => (kvsToJson kvs).map .obj
+  | _ => none
+def valsToJson : List Val → Option (List Json)
+  | [] => some []
+  | v :: vs => match valToJson v, valsToJson vs with
+    | some j, some js => some (j :: js)
+    | _, _ => none
+def kvsToJson : List (Val × Val) → Option (List (List Char × Json))
+  | [] => some []
+  | (.str k, v) :: r => match valToJson v, kvsToJson r with
+    | some j, some js => some ((k, j) :: js)
+    | _, _ => none
+  | _ :: _ => none
+end
+
+mutual
+/-- what `json.loads` builds: objects are `dict`s with string keys, arrays are lists -/
+def jsonToVal : Json → Val
+  | .null => .none
+  | .bool b => .bool b
+  | .int i => .int i
+  | .str s => .str s
+  | .arr l => .tuple (jsonsToVals l)
+  | .obj l => .dict (membersToKvs l)
+def jsonsToVals : List Json → List Val
+  | [] => []
+  | j :: js => jsonToVal j :: jsonsToVals js
+def membersToKvs : List (List Char × Json) → List (Val × Val)
+  | [] => []
+  | (k, j) :: r => (.str k, jsonToVal j) :: membersToKvs r
+end
+
 inductive BinOp | add | sub | mul | fdiv | mod
 deriving Repr, DecidableEq
 inductive CmpOp | eq | ne | lt | le | gt | ge | is | isNot | inn | notIn
@@ -94,6 +135,7 @@ deriving Repr, DecidableEq
 inductive Builtin
   | abs | len | int | str | tuple | range | enumerate | npOnes | isinstance | set
   | sorted | sortedDesc | join | items
+  | jsonDumps | jsonLoads                       -- `json.dumps(v, indent=None)` / `json.loads(text)` (Model/Json.lean)
 deriving Repr, DecidableEq
 inductive MutOp | append | add | remove
 deriving Repr, DecidableEq
@@ -122,6 +164,8 @@ inductive Expr where
   | dictOf (kvs : List (Expr × Expr))
   | comp (x : Id) (iter : Expr) (cond : Option Expr) (e : Expr)          -- [e for x in iter if cond] (also set comprehension)
   | dictComp (x : Id) (iter : Expr) (k v : Expr)
+  | compT (xs : List Id) (iter : Expr) (cond : Option Expr) (e : Expr)   -- `[e for a, b in iter if cond]`
+  | dictCompT (xs : List Id) (iter : Expr) (k v : Expr)                  -- `{k: v for a, b in iter}`
 deriving Repr, Inhabited
 
 inductive Target where
@@ -560,6 +604,12 @@ def builtinF (r : Rec) (P : Program) (b : Builtin) (vs : List Val) : R Val :=
     | some ss => pure (.str (List.intercalate sep ss))
     | none => throw (.exc K.TypeError)
   | .items, [.dict kvs] => pure (.tuple (kvs.map fun (k, v) => .tuple [k, v]))
+  | .jsonDumps, [v] => match valToJson v with
+    | some j => pure (.str (pyDumps j))
+    | none => throw (.exc K.TypeError)
+  | .jsonLoads, [.str t] => match jsonLoad t with
+    | some j => pure (jsonToVal j)
+    | none => throw (.exc K.ValueError)                    -- json.JSONDecodeError is a ValueError
   | .isinstance, [v, .cls c] =>
     match classOf? v with
     | some c' => pure (.bool (P.isSubclass classDepth c' c))
@@ -600,6 +650,37 @@ def dictCompF (r : Rec) (env : Env) (x : Id) (k v : Expr) : List Val → R (List
     let kv ← r.eval env' k
     let vv ← r.eval env' v
     let rest ← dictCompF r env x k v items
+    pure ((kv, vv) :: rest)
+
+/-- bind the variables of a `for a, b in …` target to one item -/
+def bindTargets (env : Env) (xs : List Id) (it : Val) : R Env :=
+  match xs, it with
+  | [x], v => pure (update env x v)
+  | xs, .tuple vs =>
+    if xs.length = vs.length then pure ((xs.zip vs).foldl (fun e (x, v) => update e x v) env)
+    else throw (.exc K.ValueError)
+  | _, _ => throw (.exc K.TypeError)
+
+def compTF (r : Rec) (env : Env) (xs : List Id) (cond : Option Expr) (body : Expr) : List Val → R (List Val)
+  | [] => pure []
+  | it :: items => do
+    let env' ← bindTargets env xs it
+    let keep ← match cond with
+      | some c => do pure (truthy (← r.eval env' c))
+      | none => pure true
+    let rest ← compTF r env xs cond body items
+    if keep then do
+      let v ← r.eval env' body
+      pure (v :: rest)
+    else pure rest
+
+def dictCompTF (r : Rec) (env : Env) (xs : List Id) (k v : Expr) : List Val → R (List (Val × Val))
+  | [] => pure []
+  | it :: items => do
+    let env' ← bindTargets env xs it
+    let kv ← r.eval env' k
+    let vv ← r.eval env' v
+    let rest ← dictCompTF r env xs k v items
     pure ((kv, vv) :: rest)
 
 def methF (r : Rec) (P : Program) (recv : Val) (m : Id) (args : List Val) : R (Val × Val) :=
@@ -680,6 +761,14 @@ def evalF (r : Rec) (P : Program) (env : Env) (e : Expr) : R Val :=
     | none => throw (.exc K.TypeError)
     | some items => do pure (.dict (← dictCompF r env x k v items))
   | .builtin b args => do builtinF r P b (← mapR (r.eval env) args)
+  | .compT xs iter cond body => do
+    match iterItems P (← r.eval env iter) with
+    | none => throw (.exc K.TypeError)
+    | some items => do pure (.tuple (← compTF r env xs cond body items))
+  | .dictCompT xs iter k v => do
+    match iterItems P (← r.eval env iter) with
+    | none => throw (.exc K.TypeError)
+    | some items => do pure (.dict ((← dictCompTF r env xs k v items).foldl (fun acc (k, v) => updateD acc k v) []))
 
 /-- write `v` at the path `t` -/
 def assignToF (r : Rec) (env : Env) : Target → Val → R Env
